@@ -124,6 +124,7 @@ Clauses(e) ==
      << "C03.needed_if_unusable", NeededIff(e) >>,
      << "C03.possible_iff_capacity", PossibleIff(e) >>,
      << "C14.success_is_fixpoint", SuccessIsFixpoint(e) >>,
+     << "C14.success_converges_to_original", IsRepair(e) => OkMeansRestored(e) >>,
      << "C14.failure_keeps_or_restores", FailureKeepsOrRestores(e) >>,
      << "C14.verify_pure", VerifyPure(e) >>,
      << "C16.survivors_counted", Complete(e) >>,
